@@ -70,6 +70,7 @@ type c14Hist struct {
 	Closures map[string][]string  `json:"closures"` // prog -> closure (generator's notion)
 	StdUsed  map[string][]string  `json:"std_used"`
 	Decoys   []string             `json:"decoys"`
+	Twins    bool                 `json:"twins,omitempty"` // the world holds tw/one/util.tsh and tw/two/util.tsh with the same bytes
 	Mount0   string               `json:"mount0"`
 	Exe0     string               `json:"exe0"`
 	Steps    []c14Step            `json:"steps"`
@@ -218,6 +219,17 @@ func (h *c14Hist) materialise(env *Env) (*simrt.History, []*c14Key) {
 			content[s.Rel] = data
 			out.Steps = append(out.Steps, simrt.Step{Kind: "write", File: path.Join(mount, s.Rel), Data: data, KeepMtime: s.KeepMtime})
 			keys = append(keys, nil)
+		case "twin":
+			one, two := "tw/one/util.tsh", "tw/two/util.tsh"
+			if !h.Twins || sha(content[one]) != sha(content[two]) {
+				continue // (an edit made the two differ: nothing to link)
+			}
+			if s.AsLink {
+				out.Steps = append(out.Steps, simrt.Step{Kind: "hardlink", File: path.Join(mount, two), Link: path.Join(mount, one)})
+			} else {
+				out.Steps = append(out.Steps, simrt.Step{Kind: "write", File: path.Join(mount, two), Data: content[two]})
+			}
+			keys = append(keys, nil)
 		case "relink":
 			data, ok := content[s.Rel]
 			if !ok {
@@ -343,6 +355,18 @@ func c14GenOdd(r *Run, rng *gen.Rng, corpus []string, oddPool []string) *c14Hist
 			h.Progs = append(h.Progs, m.name)
 		}
 	}
+	if rng.Chance(12) {
+		// the same bytes under two names, both imported by one program: whether the two names are
+		// one file (hard links, as deduplicating tools and store optimisers make them) or two must
+		// not matter ("twin" steps switch between the two states)
+		twin := "func Ready() string {\n\treturn \"util\"\n}\n" + rng.Pick([]string{"", "print(\"util ready\")\n", "var V int = 3\n"})
+		gw.Set("tw/one/util.tsh", []byte(twin))
+		gw.Set("tw/two/util.tsh", []byte(twin))
+		gw.Set("twin.tsh", []byte("import (\n\ta \"tw/one/util.tsh\"\n\tb \"tw/two/util.tsh\"\n)\nprint(a.Ready(), b.Ready())\n"))
+		gw.Edges["twin.tsh"] = []string{"tw/one/util.tsh", "tw/two/util.tsh"}
+		h.Progs = append(h.Progs, "twin.tsh")
+		h.Twins = true
+	}
 	h.Files = gw.Files
 	h.Decoys = gw.Decoys
 	for _, p := range h.Progs {
@@ -439,6 +463,8 @@ func c14GenOdd(r *Run, rng *gen.Rng, corpus []string, oddPool []string) *c14Hist
 				edited[rel] = rng.Range(1, 4)
 			}
 			h.Steps = append(h.Steps, c14Step{Kind: "edit", Rel: rel, Version: edited[rel], KeepMtime: rng.Chance(40)})
+		case k < 74 && h.Twins && rng.Chance(60):
+			h.Steps = append(h.Steps, c14Step{Kind: "twin", AsLink: rng.Chance(65)})
 		case k < 74:
 			// the same bytes at the same place, as a symbolic link or as a regular file again
 			rels := sortedKeys(h.Versions)
@@ -780,6 +806,8 @@ func c14Shape(h *c14Hist) string {
 			sb.WriteString("d")
 		case "relink":
 			sb.WriteString("l")
+		case "twin":
+			sb.WriteString("w")
 		case "move":
 			sb.WriteString("m")
 		case "chdir":
